@@ -96,7 +96,7 @@ theorem one_background_request (cfg : Cfg) (method : Str) (condH : Header) (key 
   cases h with
   | origin ans h1 =>
     dsimp only at h1
-    have key : res = .done ∧ ∀ tr', tr' = (by exact ‹List Step›) → True := ⟨by
+    have hdone : res = .done := by
       split at h1
       · cases h1; rfl
       · cases h1 with
@@ -114,8 +114,8 @@ theorem one_background_request (cfg : Cfg) (method : Str) (condH : Header) (key 
                 · split at h3
                   · cases h3; rfl
                   · obtain ⟨t1, t2, r', _, _, _, hk⟩ := handleValidation_k _ _ _ _ _ _ _ _ _ _ _ _ _ _ _ h3
-                    cases hk; rfl, fun _ _ => trivial⟩
-    refine ⟨key.1, ans, _, rfl, ?_⟩
+                    cases hk; rfl
+    refine ⟨hdone, ans, _, rfl, ?_⟩
     split at h1
     · cases h1; exact ⟨rfl, rfl⟩
     · cases h1 with
